@@ -1,5 +1,6 @@
 import ZvbiModel.Hamm.Lemmas
 import ZvbiModel.Hamm.Hamm24
+import ZvbiModel.Hamm.Hamm24Enc
 import ZvbiModel.Codec.Model
 import ZvbiModel.Codec.Spec
 import ZvbiModel.Codec.LemmasVps
@@ -53,6 +54,33 @@ theorem hamm24_single_error_corrected (p0 p1 p2 : Nat) (h0 : p0 < 256) (h1 : p1 
 example : triSyn (ham24p 0x2ABCD).1 (ham24p 0x2ABCD).2.1 (ham24p 0x2ABCD).2.2 = 0 ∧
     unham24p ((ham24p 0x2ABCD).1 ^^^ 1 <<< 6) (ham24p 0x2ABCD).2.1 (ham24p 0x2ABCD).2.2 = some 0x2ABCD := by
   decide
+
+/-- Hamming 24/18 round trip: `vbi_unham24p (vbi_ham24p c) = c` for all 2^18 values, and the three
+    stored bytes are bytes with zero syndrome.  (Structural: every encoder stage is XOR-linear in
+    `c`; tables linear by 256 x 8 flip facts; agreement at 0 and the 18 unit vectors.) -/
+theorem hamm24_roundtrip (c : Nat) (hc : c < 2 ^ 18) :
+    unham24p (ham24p c).1 (ham24p c).2.1 (ham24p c).2.2 = some c ∧
+    IsTriplet (ham24p c) ∧ triSyn (ham24p c).1 (ham24p c).2.1 (ham24p c).2.2 = 0 := by
+  obtain ⟨h0, h1, h2, hs, _⟩ := ham24p_valid c hc
+  exact ⟨ham24p_unham24p c hc, ⟨h0, h1, h2⟩, hs⟩
+
+example : unham24p (ham24p 0x3FFFF).1 (ham24p 0x3FFFF).2.1 (ham24p 0x3FFFF).2.2 = some 0x3FFFF := by decide
+
+/-- For every 18-bit value and every one of the 24 transmitted bits: the triplet with that bit
+    flipped still decodes to the value. -/
+theorem hamm24_single_error_corrected_from_data (c : Nat) (hc : c < 2 ^ 18) (k : Nat) (hk : k < 24) :
+    unham24t (flip24 (ham24p c) k) = some c := unham24_single_from_data c hc k hk
+
+example : unham24t (flip24 (ham24p 0x15A5A) 23) = some 0x15A5A ∧
+    unham24t (flip24 (ham24p 0x15A5A) 0) = some 0x15A5A := by decide
+
+/-- Two distinct flipped bits of an encoded value are detected (`none`), never decoded as another
+    value. -/
+theorem hamm24_double_error_detected (c : Nat) (hc : c < 2 ^ 18) (j k : Nat) (hj : j < 24) (hk : k < 24)
+    (hne : j ≠ k) : unham24t (flip24 (flip24 (ham24p c) j) k) = none :=
+  unham24_double_from_data c hc j k hj hk hne
+
+example : unham24t (flip24 (flip24 (ham24p 0x15A5A) 3) 17) = none := by decide
 
 /-! ## VPS -/
 
